@@ -155,11 +155,37 @@ class ConcDomain(Domain):
 
     def new_object(self, cls, e, fr):
         o = Obj(cls)
-        c = self.prog.classes.get(cls)
-        if c:
-            for f in c["fields"]:
-                o.f[f["name"]] = Cell(self.field_default(f["t"], f["name"]), f["name"])
+        self.init_fields(o, cls)
         return o
+
+    def init_fields(self, o, cls, seen=None):
+        from .interp import Frame
+        c = self.prog.classes.get(cls)
+        if not c:
+            return
+        for b in c.get("bases", []):
+            self.init_fields(o, b, seen)
+        for f in c["fields"]:
+            o.f[f["name"]] = Cell(self.field_default(f["t"], f["name"]), f["name"])
+        for f in c["fields"]:
+            if f.get("init") is not None:
+                fr = Frame({"qn": cls + "::<member initialiser>", "params": [], "ret": ""}, o)
+                o.f[f["name"]].set(self.copy_value(self.interp.rvalue(f["init"], fr), f["t"]))
+
+    def field_type(self, obj, name):
+        def look(cls):
+            c = self.prog.classes.get(cls)
+            if not c:
+                return None
+            for f in c["fields"]:
+                if f["name"] == name:
+                    return f["t"]
+            for b in c.get("bases", []):
+                r = look(b)
+                if r is not None:
+                    return r
+            return None
+        return look(obj.cls) or ""
 
     def field_default(self, t, name):
         import re
@@ -298,6 +324,36 @@ class ConcDomain(Domain):
         if k == "Construct" and (e.get("copy") or e.get("move")) and len(args) == 1:
             v = it.rvalue(args[0], fr)
             return self.copy_value(v, e.get("t", ""))
+        if k == "Construct" and e.get("t", "").startswith("std::function<") and len(args) == 1:
+            return it.rvalue(args[0], fr)
+        if k == "OpCall" and e["op"] == "()" and args:
+            f0 = it.rvalue(args[0], fr)
+            if isinstance(f0, tuple) and f0 and f0[0] == "lambda":
+                return self.call_lambda(f0, [it.rvalue(a, fr) for a in args[1:]], e)
+        if base == "std::make_unique" and "[]" in callee and len(args) == 1:
+            n = it.rvalue(args[0], fr)
+            elem = "int" if "<int[]>" in callee.replace(" ", "") else "double"
+            return self.new_array("heap", n, elem)
+        if base in ("std::copy",) and len(args) == 3:
+            a, b, c = (it.rvalue(x, fr) for x in args)
+            if isinstance(a, PtrInto) and isinstance(b, PtrInto) and isinstance(c, PtrInto):
+                for i in range(b.off - a.off):
+                    v = self.index(a.arr, a.off + i, e, fr).get()
+                    self.index(c.arr, c.off + i, e, fr).set(v)
+                return PtrInto(c.arr, c.off + (b.off - a.off))
+        if base in ("std::fill",) and len(args) == 3:
+            a, b = it.rvalue(args[0], fr), it.rvalue(args[1], fr)
+            v = it.rvalue(args[2], fr)
+            if isinstance(a, PtrInto) and isinstance(b, PtrInto):
+                for i in range(a.off, b.off):
+                    self.index(a.arr, i, e, fr).set(v)
+                return None
+        if base in ("std::begin", "std::end") and len(args) == 1:
+            a = it.rvalue(args[0], fr)
+            if isinstance(a, Arr):
+                return PtrInto(a, 0 if base == "std::begin" else a.length)
+        if k == "Construct" and e.get("t", "").startswith("std::initializer_list<") and len(args) == 1:
+            return it.rvalue(args[0], fr)
         if base in ("std::div", "div"):
             a, b = it.rvalue(args[0], fr), it.rvalue(args[1], fr)
             from .interp import c_div, c_mod
@@ -353,6 +409,36 @@ class ConcDomain(Domain):
             if mname == "at":
                 return Elem(this, it.rvalue(args[0], fr), self, site)
         return NotImplemented
+
+    def new_array(self, name, n, elem):
+        a = Arr(name, n, elem=elem)
+        if elem == "int":
+            a.ints = {i: 0 for i in range(n or 0)}
+        return a
+
+    def call_lambda(self, lam, argvals, e):
+        from .interp import Frame, ReturnEx
+        _, le, dfr = lam
+        fr = Frame(dfr.fn, dfr.this)
+        fr.vars = dict(dfr.vars)
+        ps = le.get("params", [])
+        if len(ps) != len(argvals):
+            raise AnalysisBroken("lambda arity mismatch at %s" % ir.locstr(e))
+        for p, a in zip(ps, argvals):
+            fr.vars[p["id"]] = Cell(a, p["name"])
+        try:
+            self.interp.exec(le["body"], fr)
+        except ReturnEx as r:
+            return r.v
+        return None
+
+    def init_list(self, e, fr):
+        vals = [self.interp.rvalue(x, fr) for x in e["elems"]]
+        if all(isinstance(v, int) and not isinstance(v, bool) for v in vals):
+            a = Arr("initlist", len(vals), elem="int")
+            a.ints = dict(enumerate(vals))
+            return a
+        return vals
 
     def num_threads(self):
         return 2
